@@ -121,7 +121,7 @@ contract('MatlabWrapper.mex_function', returns='str',
                     'types': {'next_case': 'none|str'}}},
          holes=[dict(match=r'case \{\}:', key='0', count='caseCount', set={'caseTarget': 'hole:1'})])
 
-DEFS = {'defCount': 'arr[Int,Int]', 'upCount': 'arr[Int,Int]'}
+DEFS = {'defCount': 'arr[Int,Int]', 'upCount': 'arr[Int,Int]', 'upName': 'arr[Int,Val:str]'}
 contract('MatlabWrapper.generate_collector_function', params={'func_id': 'int'}, returns='str',
          ghost=DEFS,
          modifies=['self.global_function_id', 'ghost:defCount'],
@@ -133,9 +133,11 @@ contract('MatlabWrapper.generate_collector_function', params={'func_id': 'int'},
 
 contract('MatlabWrapper.wrap_collector_function_upcast_from_void',
          params={'class_name': 'str', 'func_id': 'int', 'cpp_name': 'str'}, returns='str', ghost=DEFS,
-         modifies=['ghost:upCount'],
-         ensures=['upCount == old(upCount).set(func_id, old(upCount)[func_id] + 1)'],
-         holes=[dict(match=r'\{class_name\}_upcastFromVoid_\{id\}\(int nargout', key='id', count='upCount')])
+         modifies=['ghost:upCount', 'ghost:upName:arr[Int,Val:str]'],
+         ensures=['upCount == old(upCount).set(func_id, old(upCount)[func_id] + 1)',
+                  # the up-cast routine is defined under the name <class_name>_upcastFromVoid_<id>
+                  'upName == old(upName).set(func_id, class_name)'],
+         holes=[dict(match=r'\{class_name\}_upcastFromVoid_\{id\}\(int nargout', key='id', count='upCount', set={'upName': 'hole:class_name'})])
 
 contract('MatlabWrapper.generate_preamble', returns='tuple[str,str,str,str,str]', assumed=True,
          note='type-only here; its clauses are C10')
@@ -143,18 +145,21 @@ contract('MatlabWrapper.generate_preamble', returns='tuple[str,str,str,str,str]'
 contract('MatlabWrapper.generate_wrapper', params={'namespace': 'ref:Namespace'}, returns='none',
          ghost=dict(GHOST, **dict(CASES, **DEFS)),
          requires=['c05_inv(self)', 'forall(lambda k: caseCount[k] == 0 and defCount[k] == 0 and upCount[k] == 0)'],
-         modifies=['self.global_function_id', 'list(self.content)', 'ghost:defCount', 'ghost:upCount',
+         modifies=['self.global_function_id', 'list(self.content)', 'ghost:defCount', 'ghost:upCount', 'ghost:upName:arr[Int,Val:str]',
                    'ghost:caseCount', 'ghost:caseTarget:arr[Int,Val:str]'],
          ensures=['forall(0, self.wrapper_id, lambda k: defCount[k] == (1 if k in self.wrapper_map else 0))',
                   'forall(0, self.wrapper_id, lambda k: upCount[k] == (1 if c05_upcast_at(self.wrapper_map, k) else 0))',
+                  # the up-cast routine of id k is defined under the name of the class of entry k: the very name that `case k:` calls (c05_target)
+                  "forall(0, self.wrapper_id, lambda k: implies(c05_upcast_at(self.wrapper_map, k), upName[k] == self.wrapper_map[k][1].name))",
                   'forall(lambda k: implies(k < 0 or k >= self.wrapper_id, defCount[k] == 0 and upCount[k] == 0))',
                   'forall(0, self.wrapper_id, lambda k: caseCount[k] == 1 and caseTarget[k] == c05_target(self.wrapper_map, k))'],
          loops={0: {'inv': ['forall(0, _i, lambda k: defCount[k] == (1 if k in self.wrapper_map else 0))',
                             'forall(0, _i, lambda k: upCount[k] == (1 if c05_upcast_at(self.wrapper_map, k) else 0))',
+                            "forall(0, _i, lambda k: implies(c05_upcast_at(self.wrapper_map, k), upName[k] == self.wrapper_map[k][1].name))",
                             'forall(lambda k: implies(k < 0 or k >= _i, defCount[k] == 0 and upCount[k] == 0))',
                             'set_next_case == (_i >= 1 and (_i - 1) not in self.wrapper_map and _i in self.wrapper_map)',
                             'forall(lambda k: caseCount[k] == 0)'],
-                    'modifies': ['self.global_function_id', 'ghost:defCount', 'ghost:upCount']}})
+                    'modifies': ['self.global_function_id', 'ghost:defCount', 'ghost:upCount', 'ghost:upName']}})
 
 # ------------------------------------------------------------------ callers: the invariant is kept by every
 # method that can reach an allocation site
@@ -199,12 +204,15 @@ contract('lemma_every_id_served_once', params={'w': 'ref:MatlabWrapper'}, return
              # postcondition of generate_wrapper
              'forall(0, w.wrapper_id, lambda k: defCount[k] == (1 if k in w.wrapper_map else 0))',
              'forall(0, w.wrapper_id, lambda k: upCount[k] == (1 if c05_upcast_at(w.wrapper_map, k) else 0))',
-             'forall(lambda k: implies(k < 0 or k >= w.wrapper_id, defCount[k] == 0 and upCount[k] == 0))'],
+             'forall(lambda k: implies(k < 0 or k >= w.wrapper_id, defCount[k] == 0 and upCount[k] == 0))',
+             'forall(0, w.wrapper_id, lambda k: implies(c05_upcast_at(w.wrapper_map, k), upName[k] == w.wrapper_map[k][1].name))'],
          ensures=[
              # ids are exactly 0..n-1, one call site and one case each, none outside
              'forall(lambda v: (siteCount[v] == 1 and caseCount[v] == 1) if 0 <= v and v < w.wrapper_id else (siteCount[v] == 0 and caseCount[v] == 0))',
              # the case of an id runs a routine that is defined exactly once ...
              'forall(0, w.wrapper_id, lambda v: upCount[v] == 1 if c05_upcast_at(w.wrapper_map, v) else (defCount[v] == 1 if v in w.wrapper_map else defCount[v + 1] == 1 and v + 1 < w.wrapper_id))',
+             # ... under the very name the case calls (the up-cast routine of id v is <class>_upcastFromVoid_<v>)
+             "forall(0, w.wrapper_id, lambda v: implies(c05_upcast_at(w.wrapper_map, v), caseTarget[v] == upName[v] + '_upcastFromVoid_' + int_str(v)))",
              # ... which is the one generated for the role the call site was written for
              'forall(0, w.wrapper_id, lambda v: c05_consistent(w.wrapper_map, v, siteRole[v]))',
              # and every defined routine is the target of exactly one case: an entry k is served by case k (normal),
